@@ -24,6 +24,9 @@ pub const EXPRS: &[&str] = &[
     "\"1\"",                            // a quoted identifier with the same inner text as the literal `1` and the raw string '1'
     "a.\"b",                             // failing compile inside the lexer: an unclosed delimiter with pending text
     "{a: abs('x'), b: length(`1`), c: nosuch(@)}",  // three failing values: the first one in source order is reported, every time
+    "[`1`, 'x']",                       // every part is a constant, the result is not: null on a null document (a result memo would differ)
+    "join(@, `[\"a\"]`)",              // two calls of one builtin failing at different argument positions: the
+    "join(', ', @)",                    // whole error (expected type, position) is compared, not only its kind
 ];
 
 pub fn docs() -> Vec<Value> {
@@ -36,7 +39,7 @@ pub fn docs() -> Vec<Value> {
     ]
 }
 
-pub const N_E: usize = 16;
+pub const N_E: usize = 19;
 pub const N_D: usize = 5;
 
 #[derive(Clone, Copy, Debug, PartialEq, Eq, Hash)]
